@@ -286,6 +286,8 @@ def _case(seed: int) -> Dict[str, Any]:
 
     kw = dict(n_streams=1 + seed % 3, steps=seed % 3, p_zero_kernel=0.1, n_top=3 + seed % 3, p_launch=0.85, p_memcpy=0.2, p_orphan_kernel=0.15 if seed % 4 == 0 else 0.0,
               p_same_ts_kernel=0.3)
+    if seed % 3 == 2:
+        kw["p_other_launch"] = 0.4  # linked host calls outside the usual launch names (graph / cooperative launches, synchronous copies): still the call that launched the activity
     per_rank = gen.gen_trace_set(seed, n_ranks=1, **kw)
     fails: List[Dict[str, Any]] = []
     n = 0
